@@ -2,10 +2,28 @@
 // leader's; the leader never regards a position as acknowledged that the follower has not
 // appended; after any fault the channel resynchronises by itself.
 //
-// Leader side: the production replica.Partition + remote replicator over a real FanOutQueue.
-// Follower side: the production app/storage/rpc.ReplicaHandler + replica.Partition over its own
-// real FanOutQueue. Between them an in-memory bidirectional stream and a direct-call unary
-// client, both owned by the harness, so that faults are injected at generated points.
+// Leader side: the production replica.Partition + one remote replicator per follower over a real
+// FanOutQueue. Follower side (1..3 followers): the production app/storage/rpc.ReplicaHandler +
+// replica.Partition over its own real FanOutQueue (wrapped only so that an append can be made to
+// fail). Between them an in-memory bidirectional stream and a direct-call unary client per
+// follower, both owned by the harness, so that faults are injected at generated points.
+//
+// The partition's replication loop is ONE goroutine that serves the replicators of all followers:
+// the harness runs one step of one (generated) follower at a time through the verif seam
+// replica.VerifReplicaStepNoWait; a loop that would wait for data (ready channel, nothing to
+// consume) or is suspended for an offline follower serves no other follower until the next append /
+// the online notification. Nothing in the harness depends on timing: a step either finishes or is
+// observably suspended (replica.VerifReplicatorSuspended).
+//
+// Fault classes beyond stream send/receive failures, follower restart / log loss / offline and
+// leader gc / tail loss:
+//   - several followers that hold different amounts of the log when the leader loses its log tail
+//     (or its whole log), resynchronised in a generated order;
+//   - a follower that cannot append while the stream stays open: its wal partition is closed
+//     (shutting down; the shutdown ends with a restart) or the next appends to its log fail.
+//
+// After the generated history faults stop, a probe message is written and every follower must
+// end up with every position the leader holds, the probe included.
 package c08
 
 import (
@@ -18,6 +36,7 @@ import (
 	"os"
 	"path/filepath"
 	"runtime"
+	"sort"
 	"strings"
 	"sync"
 	"testing"
@@ -49,10 +68,10 @@ func init() {
 }
 
 const (
-	leaderID   = models.NodeID(1)
-	followerID = models.NodeID(2)
-	dbName     = "db"
-	familyTime = int64(1700000000000)
+	leaderID      = models.NodeID(1)
+	firstFollower = models.NodeID(2) // followers are nodes 2, 3, 4
+	dbName        = "db"
+	familyTime    = int64(1700000000000)
 )
 
 // ---- light fakes for what a partition needs from the engine ----------------------------------------
@@ -95,42 +114,66 @@ type side struct {
 	part replica.Partition
 }
 
+// follower is one remote follower node: its log, its rpc handler and the harness-owned transport
+// between the leader's replicator for it and that handler.
+type follower struct {
+	w  *world
+	id models.NodeID
+	side
+
+	online     bool
+	crashed    bool // the process died (see client.Reset); it answers nothing until it is restarted
+	partClosed bool // its wal partition is closed (shutting down) while its rpc server still answers
+	built      bool // a stream has been opened on this partition incarnation (its replica relation is built)
+	watchers   []func(models.NodeStateType)
+	handler    *storagerpc.ReplicaHandler
+
+	// guarded by world.mu
+	pipe         *pipe
+	failNextSend bool
+	failNextRecv bool
+	putFail      int            // the next putFail appends to the follower's log fail
+	has          map[int64]bool // positions the follower appended in its current log incarnation
+	refused      bool           // an offer was refused with an append error since the last handshake (later offers on that stream are refused too)
+
+	lastAck int64 // highest position the leader regarded as acknowledged by this follower (checked when it moved there)
+	// the leader lost its log tail and the channel to this follower has not completed a
+	// resynchronising step since
+	resyncPending bool
+}
+
+func (f *follower) app() int64 { return f.fq.Queue().AppendedSeq() }
+
 type world struct {
 	t      *rapid.T
 	root   string
 	leader side
-	fol    side
+	fols   []*follower
 
-	folOnline bool
-	watchers  []func(models.NodeStateType)
-	handler   *storagerpc.ReplicaHandler
+	mu sync.Mutex
 
-	mu           sync.Mutex
-	pipe         *pipe
-	failNextSend bool
-	failNextRecv bool
-
-	step *stepRun // replication step in flight (parked waiting for data / for the follower)
+	// the replication step in flight (the production loop is ONE goroutine that serves all
+	// replicators of the partition: at most one step is in flight; a loop that waits inside
+	// production code - for data / for an offline follower - does not serve the other followers)
+	step      *stepRun
+	stepFol   *follower
+	suspended bool      // the step in flight is suspended inside IsReady: it waits for its offline follower
+	waitData  *follower // the loop waits (in Consume) for new data for the ready channel of this follower
 
 	nextID   uint64
-	posOf    map[uint64]int64 // message id -> position the leader stored it at
-	idBytes  map[uint64][]byte
+	posOf    map[uint64]int64  // message id -> position the leader stored it at
+	atPos    map[int64]uint64  // position -> message the current leader log stored there
+	idBytes  map[uint64][]byte // every message ever appended
 	ops      []string
 	classes  map[string]int
+	shapes   map[string]bool
 	faultHit int // faults injected while >= 1 message was un-replicated and replication continued afterwards
 	images   []string
-	// positions at which the follower may legitimately hold bytes of a leader incarnation that
-	// lost its tail (the leader no longer holds them when they were resynchronised)
-	leaderLostTail bool
-	resyncPending  bool // the leader lost its tail and has not completed a resynchronising step yet
-	parked         bool
-	parkedOffline  bool // the parked step waits for the follower (else: for data)
-	lastAck        int64
-	folHas         map[int64]bool // positions the follower appended in its current log incarnation
 }
 
 type stepRun struct {
 	done chan struct{}
+	res  int
 }
 
 func (w *world) logf(format string, args ...any) { w.ops = append(w.ops, fmt.Sprintf(format, args...)) }
@@ -138,6 +181,40 @@ func (w *world) logf(format string, args ...any) { w.ops = append(w.ops, fmt.Spr
 func (w *world) fatalf(format string, args ...any) {
 	w.t.Helper()
 	w.t.Fatalf(format+"\nhistory:\n  %s", append(args, strings.Join(w.ops, "\n  "))...)
+}
+
+// class counts an event (callable from the transport goroutines).
+func (w *world) class(name string) {
+	w.mu.Lock()
+	w.classes[name]++
+	if strings.Contains(name, "excluded_known:") {
+		w.classes["excluded_known"]++ // all exclusions for known findings
+	}
+	w.mu.Unlock()
+}
+
+// shape counts an event and marks the case as one that contains it.
+func (w *world) shape(name string) {
+	w.mu.Lock()
+	w.shapes[name] = true
+	w.mu.Unlock()
+	w.class(name)
+}
+
+func (w *world) fol(id models.NodeID) *follower {
+	for _, f := range w.fols {
+		if f.id == id {
+			return f
+		}
+	}
+	return nil
+}
+
+func (w *world) pick() *follower {
+	if len(w.fols) == 1 {
+		return w.fols[0]
+	}
+	return w.fols[rapid.IntRange(0, len(w.fols)-1).Draw(w.t, "follower")]
 }
 
 // ---- state manager / client factory fakes ---------------------------------------------------------------
@@ -148,15 +225,15 @@ type stateMgr struct {
 }
 
 func (s *stateMgr) GetLiveNode(id models.NodeID) (models.StatefulNode, bool) {
-	if id == followerID && s.w.folOnline {
-		return models.StatefulNode{ID: followerID, StatelessNode: models.StatelessNode{HostIP: "follower", GRPCPort: 2}}, true
+	if f := s.w.fol(id); f != nil && f.online {
+		return models.StatefulNode{ID: id, StatelessNode: models.StatelessNode{HostIP: fmt.Sprintf("follower-%d", id), GRPCPort: uint16(id)}}, true
 	}
 	return models.StatefulNode{}, false
 }
 
 func (s *stateMgr) WatchNodeStateChangeEvent(id models.NodeID, fn func(models.NodeStateType)) {
-	if id == followerID {
-		s.w.watchers = append(s.w.watchers, fn)
+	if f := s.w.fol(id); f != nil {
+		f.watchers = append(f.watchers, fn)
 	}
 }
 
@@ -165,25 +242,39 @@ type cliFct struct {
 	w *world
 }
 
-func (c *cliFct) CreateReplicaServiceClient(_ models.Node) (protoReplicaV1.ReplicaServiceClient, error) {
-	if !c.w.folOnline {
+func (c *cliFct) CreateReplicaServiceClient(n models.Node) (protoReplicaV1.ReplicaServiceClient, error) {
+	sn, ok := n.(*models.StatefulNode)
+	if !ok {
+		return nil, errors.New("harness: unexpected node type")
+	}
+	f := c.w.fol(sn.ID)
+	if f == nil || !f.online || f.crashed {
 		return nil, errors.New("connection refused")
 	}
-	return &client{w: c.w, handler: c.w.handler}, nil
+	return &client{f: f, handler: f.handler}, nil
 }
 
 type client struct {
-	w       *world
+	f       *follower
 	handler *storagerpc.ReplicaHandler // the follower incarnation this client was created for
 }
 
-func (c *client) alive() bool { return c.w.folOnline && c.w.handler == c.handler }
+func (c *client) alive() bool { return c.f.online && !c.f.crashed && c.f.handler == c.handler }
 
 func (c *client) Reset(ctx context.Context, in *protoReplicaV1.ResetIndexRequest, _ ...grpc.CallOption) (*protoReplicaV1.ResetIndexResponse, error) {
 	if !c.alive() {
 		return nil, errors.New("transport is closing")
 	}
-	c.w.classes["follower-reset-by-leader"]++
+	if c.f.partClosed {
+		// Partition.ResetReplicaIndex has no closed check: it would write the sequences into the
+		// unmapped meta page of the closed log, i.e. kill the follower process (and this test
+		// process). Modelled as what the leader sees: the follower dies inside the call and stays
+		// dead until it is restarted.
+		c.f.crashed = true
+		c.f.w.class("follower-dies-in-reset-on-closed-partition")
+		return nil, errors.New("transport is closing")
+	}
+	c.f.w.class("follower-reset-by-leader")
 	return c.handler.Reset(ctx, in)
 }
 
@@ -191,6 +282,10 @@ func (c *client) GetReplicaAckIndex(ctx context.Context, in *protoReplicaV1.GetR
 	if !c.alive() {
 		return nil, errors.New("transport is closing")
 	}
+	w := c.f.w
+	w.mu.Lock()
+	c.f.refused = false // a handshake starts
+	w.mu.Unlock()
 	return c.handler.GetReplicaAckIndex(ctx, in)
 }
 
@@ -198,28 +293,48 @@ func (c *client) Replica(ctx context.Context, _ ...grpc.CallOption) (protoReplic
 	if !c.alive() {
 		return nil, errors.New("transport is closing")
 	}
+	w := c.f.w
+	if c.f.partClosed && !c.f.built {
+		// the handler would build the replica relation of the closed partition:
+		// NewLocalReplicator writes the consumed sequence into the unmapped meta page of the
+		// closed consumer group, i.e. the follower process dies (as in client.Reset)
+		c.f.crashed = true
+		w.class("follower-dies-building-replica-on-closed-partition")
+		return nil, errors.New("transport is closing")
+	}
+	c.f.built = true
 	md, _ := metadata.FromOutgoingContext(ctx)
 	sctx, cancel := context.WithCancel(metadata.NewIncomingContext(context.Background(), md))
-	p := &pipe{w: c.w, ctx: sctx, cancel: cancel, reqCh: make(chan *protoReplicaV1.ReplicaRequest), respCh: make(chan *protoReplicaV1.ReplicaResponse, 1), served: make(chan struct{})}
+	p := &pipe{f: c.f, ctx: sctx, cancel: cancel, reqCh: make(chan *protoReplicaV1.ReplicaRequest), respCh: make(chan *protoReplicaV1.ReplicaResponse, 1),
+		served: make(chan struct{}), started: make(chan struct{})}
 	h := c.handler
 	go func() {
 		defer close(p.served)
 		_ = h.Replica(&serverStream{p: p})
 	}()
-	c.w.mu.Lock()
-	c.w.pipe = p
-	c.w.mu.Unlock()
+	// the handler has built its side of the channel (it waits for the first request) or has given
+	// up: what follows in the history does not race with that
+	select {
+	case <-p.started:
+	case <-p.served:
+	}
+	w.mu.Lock()
+	c.f.pipe = p
+	w.mu.Unlock()
 	return &clientStream{p: p}, nil
 }
 
 // pipe is the in-memory bidirectional stream.
 type pipe struct {
-	w      *world
+	f      *follower
 	ctx    context.Context
 	cancel context.CancelFunc
 	reqCh  chan *protoReplicaV1.ReplicaRequest
 	respCh chan *protoReplicaV1.ReplicaResponse
 	served chan struct{} // closed when the server side handler returned
+	// closed when the handler waits for its first request
+	started     chan struct{}
+	startedOnce sync.Once
 }
 
 func (p *pipe) breakNow() {
@@ -233,13 +348,14 @@ type clientStream struct {
 }
 
 func (c *clientStream) Send(req *protoReplicaV1.ReplicaRequest) error {
-	w := c.p.w
+	f := c.p.f
+	w := f.w
 	w.mu.Lock()
-	fail := w.failNextSend
-	w.failNextSend = false
+	fail := f.failNextSend
+	f.failNextSend = false
 	w.mu.Unlock()
 	if fail {
-		w.classes["fault-send-failed"]++
+		w.class("fault-send-failed")
 		c.p.breakNow()
 		return errors.New("injected: send failed")
 	}
@@ -248,25 +364,30 @@ func (c *clientStream) Send(req *protoReplicaV1.ReplicaRequest) error {
 		return nil
 	case <-c.p.ctx.Done():
 		return io.EOF
+	case <-c.p.served:
+		return io.EOF // the handler returned: the stream is over
 	}
 }
 
 func (c *clientStream) Recv() (*protoReplicaV1.ReplicaResponse, error) {
-	w := c.p.w
+	f := c.p.f
+	w := f.w
 	select {
 	case resp := <-c.p.respCh:
 		w.mu.Lock()
-		fail := w.failNextRecv
-		w.failNextRecv = false
+		fail := f.failNextRecv
+		f.failNextRecv = false
 		w.mu.Unlock()
 		if fail {
 			// the follower has processed the request (and possibly appended), the answer is lost
-			w.classes["fault-ack-lost"]++
+			w.class("fault-ack-lost")
 			c.p.breakNow()
 			return nil, errors.New("injected: recv failed")
 		}
 		return resp, nil
 	case <-c.p.ctx.Done():
+		return nil, io.EOF
+	case <-c.p.served:
 		return nil, io.EOF
 	}
 }
@@ -284,6 +405,7 @@ type serverStream struct {
 func (s *serverStream) Context() context.Context { return s.p.ctx }
 
 func (s *serverStream) Recv() (*protoReplicaV1.ReplicaRequest, error) {
+	s.p.startedOnce.Do(func() { close(s.p.started) })
 	select {
 	case req := <-s.p.reqCh:
 		return req, nil
@@ -293,12 +415,31 @@ func (s *serverStream) Recv() (*protoReplicaV1.ReplicaRequest, error) {
 }
 
 func (s *serverStream) Send(resp *protoReplicaV1.ReplicaResponse) error {
-	if resp.Err == "" && resp.AckIndex == resp.ReplicaIndex {
+	f := s.p.f
+	w := f.w
+	w.mu.Lock()
+	switch {
+	case resp.Err != "":
+		// the follower could not append the offered message (partition closed / append error)
+		f.refused = true
+		if strings.Contains(resp.Err, "closed") {
+			w.classes["offer-refused:partition-closed"]++
+			w.shapes["offer-to-follower-that-cannot-append"] = true
+		} else {
+			w.classes["offer-refused:append-error"]++
+			w.shapes["offer-to-follower-that-cannot-append"] = true
+		}
+	case resp.AckIndex == resp.ReplicaIndex:
 		// the follower appended this position (whether or not the answer reaches the leader)
-		s.p.w.mu.Lock()
-		s.p.w.folHas[resp.ReplicaIndex] = true
-		s.p.w.mu.Unlock()
+		f.has[resp.ReplicaIndex] = true
+	default:
+		if f.refused {
+			w.classes["offer-refused:other-index-expected(after-append-error)"]++
+		} else {
+			w.classes["offer-refused:other-index-expected"]++
+		}
 	}
+	w.mu.Unlock()
 	select {
 	case s.p.respCh <- resp:
 		return nil
@@ -310,53 +451,97 @@ func (s *serverStream) Send(resp *protoReplicaV1.ReplicaResponse) error {
 // follower side WAL manager: hands the handler the follower's current partition.
 type walMgr struct {
 	replica.WriteAheadLogManager
-	w *world
+	f *follower
 }
 
-func (m *walMgr) GetOrCreateLog(_ string) replica.WriteAheadLog { return &wal{w: m.w} }
+func (m *walMgr) GetOrCreateLog(_ string) replica.WriteAheadLog { return &wal{f: m.f} }
 
 type wal struct {
 	replica.WriteAheadLog
-	w *world
+	f *follower
 }
 
 func (l *wal) GetOrCreatePartition(_ models.ShardID, _ int64, _ models.NodeID) (replica.Partition, error) {
-	return l.w.fol.part, nil
+	return l.f.part, nil
+}
+
+// failingLog is the follower's FanOutQueue; only Queue().Put is intercepted so that an append can
+// be made to fail (disk full, no new page) before it touches the log.
+type failingLog struct {
+	queue.FanOutQueue
+	q *failingQueue
+}
+
+func (l *failingLog) Queue() queue.Queue { return l.q }
+
+type failingQueue struct {
+	queue.Queue
+	f *follower
+}
+
+func (q *failingQueue) Put(m []byte) error {
+	w := q.f.w
+	w.mu.Lock()
+	fail := q.f.putFail > 0
+	if fail {
+		q.f.putFail--
+	}
+	w.mu.Unlock()
+	if fail {
+		return errors.New("injected: cannot acquire a new page")
+	}
+	return q.Queue.Put(m)
 }
 
 // ---- building both sides ---------------------------------------------------------------------------------
 
-func (w *world) newPartition(dir string, current models.NodeID) side {
+func (w *world) newPartition(dir string, current models.NodeID, f *follower) side {
 	fq, err := queue.NewFanOutQueue(dir, 0)
 	if err != nil {
 		w.fatalf("open log %s: %v", dir, err)
 	}
+	log := fq
+	if f != nil {
+		log = &failingLog{FanOutQueue: fq, q: &failingQueue{Queue: fq.Queue(), f: f}}
+	}
 	db := &fakeDB{opt: &option.DatabaseOption{}}
-	p := replica.NewPartition(context.Background(), &fakeShard{db: db}, &fakeFamily{}, current, fq, &cliFct{w: w}, &stateMgr{w: w})
+	p := replica.NewPartition(context.Background(), &fakeShard{db: db}, &fakeFamily{}, current, log, &cliFct{w: w}, &stateMgr{w: w})
 	return side{dir: dir, fq: fq, part: p}
 }
 
 func (w *world) openLeader() {
-	w.watchers = nil
-	w.leader = w.newPartition(w.leader.dir, leaderID)
-	if err := w.leader.part.BuildReplicaForLeader(leaderID, []models.NodeID{followerID}); err != nil {
+	ids := make([]models.NodeID, 0, len(w.fols))
+	for _, f := range w.fols {
+		f.watchers = nil
+		ids = append(ids, f.id)
+	}
+	w.leader = w.newPartition(w.leader.dir, leaderID, nil)
+	if err := w.leader.part.BuildReplicaForLeader(leaderID, ids); err != nil {
 		w.fatalf("build replica: %v", err)
 	}
 }
 
-func (w *world) openFollower() {
-	w.fol = w.newPartition(w.fol.dir, followerID)
-	w.handler = storagerpc.NewReplicaHandler(&walMgr{w: w})
+func (w *world) openFollower(f *follower) {
+	f.side = w.newPartition(f.dir, f.id, f)
+	f.handler = storagerpc.NewReplicaHandler(&walMgr{f: f})
+	f.partClosed, f.crashed, f.built = false, false, false
+	w.mu.Lock()
+	f.putFail = 0
+	w.mu.Unlock()
 }
 
-func (w *world) breakStream() {
+func (w *world) breakStream(f *follower) {
 	w.mu.Lock()
-	p := w.pipe
-	w.pipe = nil
+	p := f.pipe
+	f.pipe = nil
 	w.mu.Unlock()
 	if p != nil {
 		p.breakNow()
 	}
+}
+
+func (w *world) replicator(f *follower) replica.Replicator {
+	return replica.VerifReplicator(w.leader.part, f.id)
 }
 
 // ---- messages ---------------------------------------------------------------------------------------------
@@ -376,93 +561,228 @@ func (w *world) newMessage(size int) []byte {
 	return b
 }
 
+func (w *world) leaderPut(size int) {
+	m := w.newMessage(size)
+	if err := w.leader.part.WriteLog(m); err != nil {
+		w.fatalf("leader append: %v", err)
+	}
+	pos := w.leader.fq.Queue().AppendedSeq()
+	w.posOf[w.nextID] = pos
+	w.atPos[pos] = w.nextID
+	w.logf("leaderAppend id=%d size=%d -> position %d", w.nextID, size, pos)
+}
+
 // ---- steps ---------------------------------------------------------------------------------------------------
 
-// settle waits for a replication step in flight; parked steps (waiting for data or for the
-// follower to come back) stay in flight.
-func (w *world) settle(d time.Duration) bool {
+// await waits until the step in flight has finished or is suspended inside production code
+// (IsReady waits for the online notification of an offline follower). A step never waits for
+// data: VerifReplicaStepNoWait reports that the production loop would do so (see waitData).
+func (w *world) await() bool {
 	if w.step == nil {
 		return true
 	}
-	if w.parked {
-		// known to be blocked inside production code (waiting for data / for the follower):
-		// only look whether something released it meanwhile
-		d = 0
-	}
-	select {
-	case <-w.step.done:
-		w.step, w.parked = nil, false
-		return true
-	case <-time.After(d):
-		return false
-	}
-}
-
-// settleWake waits for a parked step after an event that releases it.
-func (w *world) settleWake(d time.Duration) bool {
-	w.parked = false
-	return w.settle(d)
-}
-
-func (w *world) opStep() {
-	if !w.settle(50 * time.Millisecond) {
-		w.classes["step-skipped-previous-parked"]++
-		return
-	}
-	if !w.needsStep() {
-		w.t.Skip("no backlog and the channel is ready: the production loop would wait for data")
-	}
-	if !w.folOnline && rapid.IntRange(0, 3).Draw(w.t, "stepWhileOffline") != 0 {
-		w.t.Skip("follower offline")
-	}
-	w.logf("replicaStep")
-	part := w.leader.part
-	run := &stepRun{done: make(chan struct{})}
-	w.step = run
-	go func() {
-		defer close(run.done)
-		replica.VerifReplicaStep(part, followerID)
-	}()
-	if !w.settle(50 * time.Millisecond) {
-		w.logf("  (step parked: waits for data or for the follower)")
-		w.classes["step-parked"]++
-		w.parked = true
-		w.parkedOffline = !w.folOnline
-	} else if w.resyncPending && w.folOnline {
-		if r := replica.VerifReplicator(w.leader.part, followerID); r != nil && r.State() != nil && replica.VerifReplicatorReady(r) {
-			w.resyncPending = false
+	deadline := time.Now().Add(30 * time.Second)
+	for n := 0; ; n++ {
+		select {
+		case <-w.step.done:
+			w.stepDone()
+			return true
+		default:
+		}
+		if w.suspended {
+			return false
+		}
+		if r := w.replicator(w.stepFol); r != nil && replica.VerifReplicatorSuspended(r) {
+			w.suspended = true
+			return false
+		}
+		if n < 100 {
+			runtime.Gosched()
+		} else {
+			time.Sleep(50 * time.Microsecond)
+		}
+		if time.Now().After(deadline) {
+			buf := make([]byte, 1<<20)
+			k := runtime.Stack(buf, true)
+			w.fatalf("replication step does not finish and is not suspended for an offline follower\n%s", buf[:k])
 		}
 	}
 }
 
-const sigLostTail = "C08/leader-lost-tail-appends-before-resync"
+func (w *world) stepDone() {
+	f, res := w.stepFol, w.step.res
+	w.step, w.stepFol, w.suspended = nil, nil, false
+	if res == replica.VerifStepWaitsForData {
+		w.logf("  (channel ready, nothing to consume: the loop waits for data)")
+		w.class("step-parked")
+		w.waitData = f
+	}
+	w.noteResync(f)
+}
+
+// noteResync: the channel of f is ready again after a leader tail loss.
+func (w *world) noteResync(f *follower) {
+	if f == nil || !f.resyncPending || !f.online {
+		return
+	}
+	if r := w.replicator(f); r != nil && replica.VerifReplicatorReady(r) {
+		f.resyncPending = false
+	}
+}
+
+// busy: the single replication loop of the partition is blocked (suspended for an offline
+// follower, or waiting for data): no step of any follower runs.
+func (w *world) busy() bool { return w.step != nil || w.waitData != nil }
+
+// quietFor: no step in flight that works on the channel of f.
+func (w *world) quietFor(f *follower) bool { return w.step == nil || w.stepFol != f }
+
+func (w *world) opStep() {
+	if w.busy() {
+		w.class("step-skipped-previous-parked")
+		return
+	}
+	f := w.pick()
+	if !w.needsStep(f) {
+		w.t.Skip("no backlog and the channel is ready: the production loop would wait for data")
+	}
+	if !f.online && rapid.IntRange(0, 3).Draw(w.t, "stepWhileOffline") != 0 {
+		w.t.Skip("follower offline")
+	}
+	if w.excludedStep(f) {
+		w.class("excluded_known:step-resets-append-index-under-other-followers")
+		w.t.Skip("excluded: known finding")
+	}
+	w.stepFor(f)
+}
+
+func (w *world) stepFor(f *follower) {
+	if f.resyncPending {
+		ahead := true
+		for _, g := range w.fols {
+			if g != f && g.resyncPending && g.app() > f.app() {
+				ahead = false
+			}
+		}
+		if len(w.fols) > 1 {
+			if ahead {
+				w.class("resync-after-leader-loss:most-ahead-follower-first")
+			} else {
+				w.class("resync-after-leader-loss:a-follower-behind-first")
+			}
+		}
+	}
+	w.logf("replicaStep follower=%d", f.id)
+	w.runStep(f)
+}
+
+func (w *world) runStep(f *follower) {
+	part := w.leader.part
+	run := &stepRun{done: make(chan struct{})}
+	w.step, w.stepFol, w.suspended = run, f, false
+	id := f.id
+	go func() {
+		defer close(run.done)
+		run.res = replica.VerifReplicaStepNoWait(part, id)
+	}()
+	if !w.await() {
+		w.logf("  (step suspended: waits for the follower to come back)")
+		w.class("step-suspended-follower-offline")
+	}
+}
+
+// wakeLoop: new data arrived while the loop waited for data: it goes on with that replicator.
+func (w *world) wakeLoop() {
+	f := w.waitData
+	if f == nil {
+		return
+	}
+	w.waitData = nil
+	w.logf("  (the loop goes on: follower=%d)", f.id)
+	w.runStep(f)
+}
+
+const (
+	sigLostTail = "C08/leader-lost-tail-appends-before-resync"
+	// a follower that refuses an offer (append error, or it waits for another index) over a stream
+	// that stays open: the leader ignores the answer, the channel stays ready, every later offer is
+	// refused too; nothing resynchronises until the stream breaks for another reason
+	sigRefused = "C08/refused-offer-leaves-channel-ready"
+	// the closed partition of a follower answers (0, error); the leader does not look at the
+	// error, so an offer of position 0 counts as acknowledged
+	sigZero = "C08/closed-partition-refusal-acks-position-0"
+	// the handshake with a follower that is ahead of a leader that lost its log tail moves the
+	// append index with FanOutQueue.SetAppendedSeq: read barrier and every consumer group jump
+	// there, so positions the leader still holds and ANOTHER follower lacks are never sent to it
+	sigDrop = "C08/append-index-reset-drops-backlog-of-other-followers"
+)
+
+// excludedStep: shapes of replication steps not generated while a known finding is listed.
+func (w *world) excludedStep(f *follower) bool {
+	if ev.Known(sigDrop) && w.resetsAppendIndex(f) {
+		for _, g := range w.fols {
+			if g != f && (w.lacksHeld(g) || w.ready(g)) {
+				return true
+			}
+		}
+	}
+	return false
+}
+
+func (w *world) ready(f *follower) bool {
+	r := w.replicator(f)
+	return r != nil && replica.VerifReplicatorReady(r)
+}
+
+// resetsAppendIndex: the next step of f does a handshake with a follower that is ahead of the leader.
+func (w *world) resetsAppendIndex(f *follower) bool {
+	// (a step for an offline follower is suspended and does the handshake when the follower is back)
+	return !f.crashed && !w.ready(f) && f.app() > w.leader.fq.Queue().AppendedSeq()
+}
+
+// lacksHeld: the leader still holds positions for g which g has not appended.
+func (w *world) lacksHeld(g *follower) bool {
+	held := g.app()
+	if rg := w.replicator(g); rg != nil && rg.AckIndex() > held {
+		held = rg.AckIndex()
+	}
+	return held < w.leader.fq.Queue().AppendedSeq()
+}
+
+// appendExcluded: known finding sigLostTail: a leader that lost its log tail and accepts writes
+// before the channel to a follower that is ahead of it has resynchronised re-uses positions that
+// follower still holds with the old bytes.
+func (w *world) appendExcluded() bool {
+	if !ev.Known(sigLostTail) {
+		return false
+	}
+	lApp := w.leader.fq.Queue().AppendedSeq()
+	for _, f := range w.fols {
+		if f.resyncPending && f.app() > lApp {
+			return true
+		}
+	}
+	return false
+}
 
 func (w *world) opAppend() {
-	if w.resyncPending && ev.Known(sigLostTail) {
-		// known finding: a leader that lost its log tail and accepts writes before the channel has
-		// resynchronised re-uses positions the follower still holds with the old bytes
-		w.classes["excluded_known"]++
+	if w.appendExcluded() {
+		w.class("excluded_known:append-before-resync-of-follower-ahead")
 		w.t.Skip("excluded: known finding " + sigLostTail)
 	}
 	n := rapid.IntRange(1, 3).Draw(w.t, "appendCount")
 	for i := 0; i < n; i++ {
 		size := rapid.SampledFrom([]int{8, 9, 64, 500, 5000}).Draw(w.t, "size")
-		m := w.newMessage(size)
-		if err := w.leader.part.WriteLog(m); err != nil {
-			w.fatalf("leader append: %v", err)
-		}
-		pos := w.leader.fq.Queue().AppendedSeq()
-		w.posOf[w.nextID] = pos
-		w.logf("leaderAppend id=%d size=%d -> position %d", w.nextID, size, pos)
+		w.leaderPut(size)
 	}
-	// a parked step may have been waiting for data
-	if w.step != nil && !w.parkedOffline {
-		w.settleWake(200 * time.Millisecond)
+	// the loop may have been waiting for data
+	if w.step == nil {
+		w.wakeLoop()
 	}
 }
 
-func (w *world) backlog() int64 {
-	r := replica.VerifReplicator(w.leader.part, followerID)
+func (w *world) backlog(f *follower) int64 {
+	r := w.replicator(f)
 	if r == nil {
 		return 0
 	}
@@ -471,85 +791,142 @@ func (w *world) backlog() int64 {
 
 // needsStep: the production loop has something to do without new data: unconsumed messages, or a
 // channel that is not ready (it resynchronises and may re-send consumed but unacknowledged ones).
-func (w *world) needsStep() bool {
-	r := replica.VerifReplicator(w.leader.part, followerID)
+func (w *world) needsStep(f *follower) bool {
+	r := w.replicator(f)
 	if r == nil {
 		return false
 	}
 	return r.Pending() > 0 || !replica.VerifReplicatorReady(r)
 }
 
-func (w *world) noteFault() {
-	if w.backlog() > 0 {
+func (w *world) noteFault(f *follower) {
+	if f == nil {
+		for _, g := range w.fols {
+			if w.backlog(g) > 0 {
+				w.faultHit++
+				return
+			}
+		}
+		return
+	}
+	if w.backlog(f) > 0 {
 		w.faultHit++
 	}
 }
 
 func (w *world) opFailSend() {
-	w.logf("fault: next stream send fails")
+	f := w.pick()
+	w.logf("fault: next stream send to follower %d fails", f.id)
 	w.mu.Lock()
-	w.failNextSend = true
+	f.failNextSend = true
 	w.mu.Unlock()
-	w.noteFault()
+	w.noteFault(f)
 }
 
 func (w *world) opFailRecv() {
-	w.logf("fault: next stream receive fails (ack lost)")
+	f := w.pick()
+	w.logf("fault: next stream receive from follower %d fails (ack lost)", f.id)
 	w.mu.Lock()
-	w.failNextRecv = true
+	f.failNextRecv = true
 	w.mu.Unlock()
-	w.noteFault()
+	w.noteFault(f)
 }
 
-func (w *world) closeFollower() {
-	w.breakStream()
-	_ = w.fol.part.Close()
+func (w *world) closeFollower(f *follower) {
+	w.breakStream(f)
+	_ = f.part.Close()
 }
 
 func (w *world) opFollowerRestart() {
-	if !w.settle(300 * time.Millisecond) {
-		w.t.Skip("step parked")
+	f := w.pick()
+	if !w.quietFor(f) {
+		w.t.Skip("step suspended")
 	}
-	w.logf("fault: follower restarts (log kept)")
-	w.noteFault()
-	w.closeFollower()
-	w.openFollower()
-	w.classes["fault-follower-restart"]++
+	w.logf("fault: follower %d restarts (log kept)", f.id)
+	w.noteFault(f)
+	w.closeFollower(f)
+	w.openFollower(f)
+	w.class("fault-follower-restart")
 }
 
 func (w *world) opFollowerLosesLog() {
-	if !w.settle(300 * time.Millisecond) {
-		w.t.Skip("step parked")
+	f := w.pick()
+	if !w.quietFor(f) {
+		w.t.Skip("step suspended")
 	}
-	w.logf("fault: follower loses its log")
-	w.noteFault()
-	w.closeFollower()
-	_ = os.RemoveAll(w.fol.dir)
+	w.logf("fault: follower %d loses its log", f.id)
+	w.noteFault(f)
+	w.closeFollower(f)
+	_ = os.RemoveAll(f.dir)
 	w.mu.Lock()
-	w.folHas = map[int64]bool{}
+	f.has = map[int64]bool{}
 	w.mu.Unlock()
-	w.openFollower()
-	w.classes["fault-follower-lost-log"]++
+	w.openFollower(f)
+	w.class("fault-follower-lost-log")
+}
+
+// opFollowerClosesPartition: the follower shuts down: its wal partition is closed while its rpc
+// server still answers and the replica stream of the leader is still open. (The shutdown ends with
+// a follower restart, which breaks the stream.)
+func (w *world) opFollowerClosesPartition() {
+	f := w.pick()
+	if f.partClosed {
+		w.t.Skip("already closed")
+	}
+	if ev.Known(sigZero) && f.app() < 0 {
+		// the only position the leader can offer to an empty follower is 0
+		w.class("excluded_known:empty-follower-closes-partition")
+		w.t.Skip("excluded: known finding " + sigZero)
+	}
+	w.logf("fault: follower %d closes its wal partition (shutting down), stream stays open", f.id)
+	w.noteFault(f)
+	_ = f.part.Close()
+	f.partClosed = true
+	w.class("fault-follower-partition-closed")
+}
+
+// opFollowerAppendFails: the next 1..3 appends to the follower's log fail (no new page / disk
+// full); the stream stays open.
+func (w *world) opFollowerAppendFails() {
+	f := w.pick()
+	n := rapid.IntRange(1, 3).Draw(w.t, "failedAppends")
+	w.logf("fault: the next %d appends to the log of follower %d fail", n, f.id)
+	w.noteFault(f)
+	w.mu.Lock()
+	f.putFail = n
+	w.mu.Unlock()
+	w.class("fault-follower-append-fails")
 }
 
 func (w *world) opFollowerOffline() {
-	if !w.folOnline {
+	f := w.pick()
+	if !f.online {
 		w.t.Skip("already offline")
 	}
-	w.logf("fault: follower offline")
-	w.noteFault()
-	w.folOnline = false
-	w.breakStream()
-	w.classes["fault-follower-offline"]++
+	w.logf("fault: follower %d offline", f.id)
+	w.noteFault(f)
+	f.online = false
+	w.breakStream(f)
+	w.class("fault-follower-offline")
 }
 
 func (w *world) opFollowerOnline() {
-	if w.folOnline {
+	f := w.pick()
+	if f.online {
 		w.t.Skip("already online")
 	}
-	w.logf("follower online (notification delivered)")
-	w.folOnline = true
-	for _, fn := range w.watchers {
+	if w.step != nil && w.stepFol == f && w.excludedStep(f) {
+		// the suspended step continues with the handshake
+		w.class("excluded_known:step-resets-append-index-under-other-followers")
+		w.t.Skip("excluded: known finding")
+	}
+	w.followerOnline(f)
+}
+
+func (w *world) followerOnline(f *follower) {
+	w.logf("follower %d online (notification delivered)", f.id)
+	f.online = true
+	for _, fn := range f.watchers {
 		done := make(chan struct{})
 		go func(fn func(models.NodeStateType)) { fn(models.NodeOnline); close(done) }(fn)
 		select {
@@ -558,12 +935,10 @@ func (w *world) opFollowerOnline() {
 			w.fatalf("online notification is not consumed by the suspended replicator")
 		}
 	}
-	if w.step != nil && w.parkedOffline {
-		// the suspended step continues; it may park again waiting for data
-		w.settleWake(100 * time.Millisecond)
-		if w.step != nil {
-			w.parked, w.parkedOffline = true, false
-		}
+	if w.step != nil && w.stepFol == f {
+		// the suspended step continues
+		w.suspended = false
+		w.await()
 	}
 }
 
@@ -574,10 +949,10 @@ func (w *world) opLeaderGC() {
 }
 
 func (w *world) opSnapshotLeader() {
-	if len(w.images) >= 2 || !w.settle(300*time.Millisecond) {
-		w.t.Skip("enough images / step parked")
+	if len(w.images) >= 2 || w.step != nil {
+		w.t.Skip("enough images / step suspended")
 	}
-	dir := filepath.Join(w.root, fmt.Sprintf("leader-image-%d", len(w.images)))
+	dir := filepath.Join(w.root, fmt.Sprintf("leader-image-%d", w.nextID*10+uint64(len(w.images))))
 	if err := crash.CopyTree(w.leader.dir, dir); err != nil {
 		w.fatalf("harness: copy: %v", err)
 	}
@@ -585,20 +960,33 @@ func (w *world) opSnapshotLeader() {
 	w.logf("(image of the leader log taken: appended=%d)", w.leader.fq.Queue().AppendedSeq())
 }
 
-// opLeaderLosesTail: the leader restarts from an earlier image of its log.
+// opLeaderLosesTail: the leader restarts from an earlier image of its log (or, whole = true, with
+// an empty log: everything is the lost tail).
 func (w *world) opLeaderLosesTail() {
-	if len(w.images) == 0 || !w.settle(300*time.Millisecond) {
-		w.t.Skip("no image / step parked")
+	whole := rapid.IntRange(0, 4).Draw(w.t, "loseWholeLog") == 0
+	w.leaderLosesTail(whole)
+}
+
+func (w *world) leaderLosesTail(whole bool) {
+	if (!whole && len(w.images) == 0) || w.step != nil {
+		w.t.Skip("no image / step suspended")
 	}
-	img := w.images[len(w.images)-1]
-	w.images = w.images[:len(w.images)-1]
-	w.noteFault()
-	w.breakStream()
+	w.waitData = nil // the loop dies with the process
+	w.noteFault(nil)
+	for _, f := range w.fols {
+		w.breakStream(f)
+	}
 	w.leader.part.Stop()
 	_ = w.leader.part.Close()
 	_ = os.RemoveAll(w.leader.dir)
-	if err := crash.CopyTree(img, w.leader.dir); err != nil {
-		w.fatalf("harness: restore: %v", err)
+	if whole {
+		w.images = nil // earlier images are no prefix of the log that starts now
+	} else {
+		img := w.images[len(w.images)-1]
+		w.images = w.images[:len(w.images)-1]
+		if err := crash.CopyTree(img, w.leader.dir); err != nil {
+			w.fatalf("harness: restore: %v", err)
+		}
 	}
 	w.openLeader()
 	app := w.leader.fq.Queue().AppendedSeq()
@@ -607,18 +995,41 @@ func (w *world) opLeaderLosesTail() {
 	for id, pos := range w.posOf {
 		if pos > app {
 			delete(w.posOf, id)
+			delete(w.atPos, pos)
 		}
 	}
-	w.leaderLostTail = true
-	w.resyncPending = true
-	w.classes["fault-leader-lost-tail"]++
+	distinct := map[int64]bool{}
+	ahead := 0
+	for _, f := range w.fols {
+		if f.lastAck > app {
+			f.lastAck = app // positions above are lost; what is stored there later is new
+		}
+		f.resyncPending = true
+		distinct[f.app()] = true
+		if f.app() > app {
+			ahead++
+		}
+	}
+	w.class("fault-leader-lost-tail")
+	if whole {
+		w.class("fault-leader-lost-whole-log")
+	}
+	if len(distinct) > 1 && ahead > 0 {
+		w.shape("leader-lost-tail:followers-hold-different-amounts")
+	}
 }
 
-// opLoseLastK: image, k appends that are replicated, then the leader falls back to the image:
-// the leader is exactly k messages behind its follower.
+// opLoseLastK: image, k appends that are replicated (completely to one follower, the others get
+// a generated number of steps), then the leader falls back to the image: the leader is exactly k
+// messages behind a follower.
 func (w *world) opLoseLastK() {
-	if !w.folOnline || !w.settle(0) || (w.resyncPending && ev.Known(sigLostTail)) {
-		w.t.Skip("follower offline / step parked / resync pending")
+	if w.busy() || w.appendExcluded() {
+		w.t.Skip("loop blocked / resync pending")
+	}
+	for _, f := range w.fols {
+		if !f.online {
+			w.t.Skip("a follower is offline")
+		}
 	}
 	k := rapid.IntRange(1, 2).Draw(w.t, "lostMessages")
 	if len(w.images) >= 2 {
@@ -626,51 +1037,59 @@ func (w *world) opLoseLastK() {
 	}
 	w.opSnapshotLeader()
 	for i := 0; i < k; i++ {
-		m := w.newMessage(16)
-		if err := w.leader.part.WriteLog(m); err != nil {
-			w.fatalf("leader append: %v", err)
-		}
-		w.posOf[w.nextID] = w.leader.fq.Queue().AppendedSeq()
-		w.logf("leaderAppend id=%d size=16 -> position %d", w.nextID, w.posOf[w.nextID])
+		w.leaderPut(16)
 	}
-	for i := 0; i < 2*k+2 && w.needsStep(); i++ {
-		w.opStep()
-		if w.step != nil {
-			break
+	first := w.pick()
+	order := []*follower{first}
+	for _, f := range w.fols {
+		if f != first {
+			order = append(order, f)
+		}
+	}
+	for n, f := range order {
+		steps := 2*k + 2
+		if n > 0 {
+			steps = rapid.IntRange(0, 2*k+2).Draw(w.t, "stepsOfOtherFollower")
+		}
+		for i := 0; i < steps && !w.busy() && w.needsStep(f) && !w.excludedStep(f); i++ {
+			w.stepFor(f)
 		}
 	}
 	w.check("before tail loss")
-	w.opLeaderLosesTail()
-	w.classes["lose-last-k"]++
+	w.leaderLosesTail(false)
+	w.class("lose-last-k")
 }
 
 // ---- oracle -------------------------------------------------------------------------------------------------
 
 func (w *world) check(where string) {
 	if w.step != nil {
-		select {
-		case <-w.step.done:
-			w.step = nil
-		default:
-			return // a step is parked inside production code; check again when it finished
-		}
+		return // a step is suspended inside production code; check again when it finished
 	}
-	lq, fq := w.leader.fq.Queue(), w.fol.fq.Queue()
+	for _, f := range w.fols {
+		w.checkFollower(where, f)
+	}
+}
+
+func (w *world) checkFollower(where string, f *follower) {
+	where = fmt.Sprintf("%s: follower %d", where, f.id)
+	lq, fq := w.leader.fq.Queue(), f.fq.Queue()
 	lApp, lAck := lq.AppendedSeq(), lq.AcknowledgedSeq()
 	fApp, fAck := fq.AppendedSeq(), fq.AcknowledgedSeq()
+	readable := !f.partClosed // the pages of a closed log are unmapped
 	// follower: gap free, each position holds a message the leader stored at that very position
-	for i := fAck + 1; i <= fApp; i++ {
+	for i := fAck + 1; readable && i <= fApp; i++ {
 		data, err := fq.Get(i)
 		if err != nil {
-			w.fatalf("%s: follower log has a hole at position %d (ack=%d appended=%d): %v", where, i, fAck, fApp, err)
+			w.fatalf("%s: log has a hole at position %d (ack=%d appended=%d): %v", where, i, fAck, fApp, err)
 		}
 		if len(data) < 8 {
-			w.fatalf("%s: follower position %d holds %d bytes", where, i, len(data))
+			w.fatalf("%s: position %d holds %d bytes", where, i, len(data))
 		}
 		id := binary.LittleEndian.Uint64(data)
 		orig, ok := w.idBytes[id]
 		if !ok || !bytes.Equal(orig, data) {
-			w.fatalf("%s: follower position %d holds bytes the leader never appended (id %d, %d bytes)", where, i, id, len(data))
+			w.fatalf("%s: position %d holds bytes the leader never appended (id %d, %d bytes)", where, i, id, len(data))
 		}
 		if pos, ok := w.posOf[id]; ok && pos != i {
 			w.fatalf("%s: message %d is stored by the leader at position %d but by the follower at position %d", where, id, pos, i)
@@ -687,143 +1106,317 @@ func (w *world) check(where string) {
 			}
 		}
 	}
-	// the leader never moves its acknowledged position for the follower to a position the
-	// follower has not appended (a stale position after the follower lost its log is no violation:
-	// it was true when it was recorded)
-	if r := replica.VerifReplicator(w.leader.part, followerID); r != nil {
-		ack := r.AckIndex()
-		if ack > w.lastAck && ack > fApp {
-			w.fatalf("%s: leader moved the position acknowledged by the follower from %d to %d, follower has appended up to %d", where, w.lastAck, ack, fApp)
-		}
-		if ack > w.lastAck {
-			// every position the leader newly regards as acknowledged must have been appended by the
-			// follower (in its current log) or still be readable there
-			w.mu.Lock()
-			for i := w.lastAck + 1; i <= ack; i++ {
-				if i < 0 || w.folHas[i] {
-					continue
-				}
-				if _, err := fq.Get(i); err == nil {
-					continue
-				}
-				w.mu.Unlock()
-				w.fatalf("%s: leader moved the position acknowledged by the follower from %d to %d, but the follower never appended position %d (follower ack=%d appended=%d)", where, w.lastAck, ack, i, fAck, fApp)
+	// the leader never moves its acknowledged position for the follower over a position it stored
+	// and the follower has not appended. (A stale position after the follower lost its log is no
+	// violation: it was true when it was recorded. Positions the leader's log never stored - the
+	// tail it lost - are not held for anybody: after the handshake with a follower that is ahead
+	// FanOutQueue.SetAppendedSeq moves every consumer group over them, as documented.)
+	r := w.replicator(f)
+	if r == nil {
+		return
+	}
+	ack := r.AckIndex()
+	if ack > f.lastAck {
+		w.mu.Lock()
+		has := f.has
+		w.mu.Unlock()
+		for i := f.lastAck + 1; i <= ack; i++ {
+			if i < 0 || has[i] {
+				continue
 			}
-			w.mu.Unlock()
+			if readable && i > fAck && i <= fApp {
+				continue
+			}
+			if _, stored := w.atPos[i]; !stored {
+				w.class("ack-moved-over-position-the-leader-lost")
+				continue
+			}
+			w.fatalf("%s: leader moved the position acknowledged by the follower from %d to %d, but the follower never appended position %d which the leader stored (follower ack=%d appended=%d)", where, f.lastAck, ack, i, fAck, fApp)
 		}
-		w.lastAck = ack
+		// high-water mark: a leader that restarts from an earlier image of its log learns the
+		// positions again which the follower had appended (and may have lost since)
+		f.lastAck = ack
 	}
 }
 
-// converge: no more faults; within backlog+8 steps the follower must hold every position the
-// leader still holds for it.
+// convergeStepAllowed: known finding sigDrop during convergence: a handshake that resets the
+// leader's append index is only taken when no other follower lacks positions the leader holds
+// (else: not judged), and the connections of the other ready channels are reset with it.
+func (w *world) convergeStepAllowed(f *follower) bool {
+	if !ev.Known(sigDrop) || !w.resetsAppendIndex(f) {
+		return true
+	}
+	for _, g := range w.fols {
+		if g != f && w.lacksHeld(g) {
+			w.shape("not-judged(excluded_known:append-index-reset)")
+			w.logf("(not judged: known finding %s)", sigDrop)
+			return false
+		}
+	}
+	for _, g := range w.fols {
+		if g != f && w.ready(g) {
+			w.class("excluded_known:connection-reset-with-append-index-reset")
+			w.logf("(connection to follower %d reset: known finding %s)", g.id, sigDrop)
+			w.breakStream(g)
+		}
+	}
+	return true
+}
+
+// converge: no more faults (a follower that was shutting down has restarted); a probe message is
+// written and within a bounded number of steps every follower must hold every position the leader
+// still holds for it, the probe included.
 func (w *world) converge() {
-	if !w.folOnline {
-		w.opFollowerOnline()
+	for _, f := range w.fols {
+		w.mu.Lock()
+		f.failNextSend, f.failNextRecv, f.putFail = false, false, 0
+		w.mu.Unlock()
 	}
-	w.mu.Lock()
-	w.failNextSend, w.failNextRecv = false, false
-	w.mu.Unlock()
-	if !w.settleWake(time.Second) {
-		// parked waiting for data: give it one message
-		w.resyncPending = false
-		w.opAppend()
-		if !w.settleWake(2 * time.Second) {
-			buf := make([]byte, 1<<20)
-			n := runtime.Stack(buf, true)
-			w.fatalf("replication step does not finish although data is available and the follower is online\n%s", buf[:n])
+	for _, f := range w.fols {
+		if !f.online {
+			if w.step != nil && w.stepFol == f && !w.convergeStepAllowed(f) {
+				return
+			}
+			w.followerOnline(f)
 		}
 	}
-	budget := int(w.leader.fq.Queue().AppendedSeq()+1) + 8
-	for i := 0; i < budget; i++ {
-		lApp := w.leader.fq.Queue().AppendedSeq()
-		fApp := w.fol.fq.Queue().AppendedSeq()
-		r := replica.VerifReplicator(w.leader.part, followerID)
-		if fApp >= lApp && r.Pending() == 0 {
-			break
+	for _, f := range w.fols {
+		if f.partClosed || f.crashed {
+			w.logf("follower %d restarts (end of its shutdown, log kept)", f.id)
+			w.closeFollower(f)
+			w.openFollower(f)
 		}
-		if !w.needsStep() {
-			break
+	}
+	// known finding sigRefused: a channel on which an append error was answered only
+	// resynchronises after the stream broke: while the finding is listed the connection of such a
+	// channel is reset
+	resetRefused := func() {
+		if !ev.Known(sigRefused) || w.step != nil {
+			return
 		}
-		w.opStep()
-		if w.step != nil {
-			// parked for data: nothing more to send
-			break
+		for _, f := range w.fols {
+			w.mu.Lock()
+			refused := f.refused
+			f.refused = false
+			w.mu.Unlock()
+			if refused {
+				w.class("excluded_known:connection-reset-after-refused-offer")
+				w.logf("(connection to follower %d reset: known finding %s)", f.id, sigRefused)
+				w.breakStream(f)
+			}
 		}
+	}
+	appends := 0
+	// write: one more message (it also releases a loop that waits for data)
+	write := func() bool {
+		if w.appendExcluded() {
+			// the channel to a follower that is ahead of the leader has not resynchronised (and the
+			// loop waits for data on another channel): any write is the known finding
+			w.shape("not-judged(excluded_known:append-before-resync)")
+			w.logf("(not judged: known finding %s)", sigLostTail)
+			return false
+		}
+		appends++
+		w.leaderPut(16)
+		w.wakeLoop()
 		w.check("during convergence")
+		resetRefused()
+		return true
+	}
+	resetRefused()
+	// channels that have not resynchronised since a leader tail loss do so before the next write
+	// (known finding sigLostTail): first the followers that lack positions the leader still holds
+	// catch up (known finding sigDrop), then the followers ahead of the leader, furthest first
+	pend := []*follower{}
+	for _, f := range w.fols {
+		if f.resyncPending {
+			pend = append(pend, f)
+		}
+	}
+	if len(pend) > 0 {
+		lApp := w.leader.fq.Queue().AppendedSeq()
+		key := func(f *follower) int64 {
+			if a := f.app(); a >= lApp {
+				return a
+			}
+			return int64(1) << 40 // behind the leader: first
+		}
+		sort.SliceStable(pend, func(i, j int) bool { return key(pend[i]) > key(pend[j]) })
+		for _, f := range pend {
+			for i := 0; i < int(lApp)+6 && !w.busy() && (f.resyncPending || (f.app() < lApp && w.needsStep(f))); i++ {
+				if !w.convergeStepAllowed(f) {
+					return
+				}
+				w.stepFor(f)
+				w.check("during convergence")
+				resetRefused()
+			}
+		}
+	}
+	// the probe
+	if !write() {
+		return
+	}
+	budget := (int(w.leader.fq.Queue().AppendedSeq()+1) + 8) * len(w.fols)
+	done := func(f *follower) bool {
+		r := w.replicator(f)
+		return f.app() >= w.leader.fq.Queue().AppendedSeq() && r.Pending() == 0
+	}
+	for i := 0; i < budget; i++ {
+		if w.waitData != nil {
+			// the loop waits for data on a ready channel: the other channels only go on after the next write
+			if appends > 2*len(w.fols)+2 {
+				break
+			}
+			if !write() {
+				return
+			}
+			continue
+		}
+		var f *follower
+		for n := range w.fols {
+			g := w.fols[(i+n)%len(w.fols)]
+			if !done(g) && w.needsStep(g) {
+				f = g
+				break
+			}
+		}
+		if f == nil {
+			break
+		}
+		if !w.convergeStepAllowed(f) {
+			return
+		}
+		w.stepFor(f)
+		w.check("during convergence")
+		resetRefused()
 	}
 	lApp := w.leader.fq.Queue().AppendedSeq()
-	fApp := w.fol.fq.Queue().AppendedSeq()
-	ack := replica.VerifReplicator(w.leader.part, followerID).AckIndex()
-	// positions at or below the position the follower acknowledged are not held for it any more
-	// (a follower that lost its log afterwards is reset to ack+1 with the next message)
-	if fApp < lApp && ack < lApp {
-		w.fatalf("no resynchronisation: after the faults stopped and %d steps the follower has appended up to %d, the leader up to %d (acknowledged by the follower: %d)", budget, fApp, lApp, ack)
+	for _, f := range w.fols {
+		fApp := f.app()
+		ack := w.replicator(f).AckIndex()
+		if fApp < lApp {
+			w.fatalf("no resynchronisation: after the faults stopped and %d steps follower %d has appended up to %d, the leader up to %d (acknowledged by the follower: %d; leader next index for it: %d, channel ready: %v)",
+				budget, f.id, fApp, lApp, ack, w.replicator(f).ReplicaIndex(), replica.VerifReplicatorReady(w.replicator(f)))
+		}
 	}
 	w.check("after convergence")
 }
 
-func runHistory(t *rapid.T) {
+func newWorld(t *rapid.T, followers int) *world {
 	root, err := os.MkdirTemp("", "c08-")
 	if err != nil {
 		t.Fatalf("harness: %v", err)
 	}
-	w := &world{t: t, root: root, posOf: map[uint64]int64{}, idBytes: map[uint64][]byte{}, classes: map[string]int{}, folOnline: true, lastAck: -1, folHas: map[int64]bool{}}
+	w := &world{t: t, root: root, posOf: map[uint64]int64{}, atPos: map[int64]uint64{}, idBytes: map[uint64][]byte{},
+		classes: map[string]int{}, shapes: map[string]bool{}}
 	w.leader.dir = filepath.Join(root, "leader")
-	w.fol.dir = filepath.Join(root, "follower")
-	defer func() {
-		w.breakStream()
-		if w.step != nil {
-			// release a parked step: closing the log wakes it
-			_ = w.leader.part.Close()
-			if w.watchers != nil && !w.folOnline {
-				w.folOnline = true
-				for _, fn := range w.watchers {
+	for i := 0; i < followers; i++ {
+		f := &follower{w: w, id: firstFollower + models.NodeID(i), online: true, lastAck: -1, has: map[int64]bool{}}
+		f.dir = filepath.Join(root, fmt.Sprintf("follower-%d", f.id))
+		w.fols = append(w.fols, f)
+	}
+	for _, f := range w.fols {
+		w.openFollower(f)
+	}
+	w.openLeader()
+	return w
+}
+
+func (w *world) close() {
+	for _, f := range w.fols {
+		w.breakStream(f)
+	}
+	if w.step != nil {
+		// release a suspended step while the leader log is still open: the follower is "online" but
+		// refuses connections, so the step ends without a handshake
+		for _, f := range w.fols {
+			f.crashed = true
+			if !f.online {
+				f.online = true
+				for _, fn := range f.watchers {
 					go fn(models.NodeOnline)
 				}
 			}
-			select {
-			case <-w.step.done:
-			case <-time.After(2 * time.Second):
-			}
 		}
-		w.leader.part.Stop()
-		_ = w.leader.part.Close()
-		_ = w.fol.part.Close()
-		_ = os.RemoveAll(root)
-	}()
-	w.openFollower()
-	w.openLeader()
+		select {
+		case <-w.step.done:
+		case <-time.After(10 * time.Second):
+		}
+	}
+	w.leader.part.Stop()
+	_ = w.leader.part.Close()
+	for _, f := range w.fols {
+		w.breakStream(f)
+		_ = f.part.Close()
+	}
+	_ = os.RemoveAll(w.root)
+}
+
+func runHistory(t *rapid.T) {
+	// 1 follower: 3/8, 2 followers: 3/8, 3 followers: 2/8
+	n := rapid.SampledFrom([]int{1, 1, 1, 2, 2, 2, 3, 3}).Draw(t, "followers")
+	w := newWorld(t, n)
+	defer w.close()
 
 	t.Repeat(map[string]func(*rapid.T){
-		"append":           func(t *rapid.T) { w.t = t; w.opAppend() },
-		"append2":          func(t *rapid.T) { w.t = t; w.opAppend() },
-		"step":             func(t *rapid.T) { w.t = t; w.opStep() },
-		"step2":            func(t *rapid.T) { w.t = t; w.opStep() },
-		"step3":            func(t *rapid.T) { w.t = t; w.opStep() },
-		"failSend":         func(t *rapid.T) { w.t = t; w.opFailSend() },
-		"failRecv":         func(t *rapid.T) { w.t = t; w.opFailRecv() },
-		"followerRestart":  func(t *rapid.T) { w.t = t; w.opFollowerRestart() },
-		"followerLosesLog": func(t *rapid.T) { w.t = t; w.opFollowerLosesLog() },
-		"followerOffline":  func(t *rapid.T) { w.t = t; w.opFollowerOffline() },
-		"followerOnline":   func(t *rapid.T) { w.t = t; w.opFollowerOnline() },
-		"leaderGC":         func(t *rapid.T) { w.t = t; w.opLeaderGC() },
-		"snapshotLeader":   func(t *rapid.T) { w.t = t; w.opSnapshotLeader() },
-		"leaderLosesTail":  func(t *rapid.T) { w.t = t; w.opLeaderLosesTail() },
-		"loseLastK":        func(t *rapid.T) { w.t = t; w.opLoseLastK() },
-		"":                 func(t *rapid.T) { w.t = t; w.check("after step") },
+		"append":                  func(t *rapid.T) { w.t = t; w.opAppend() },
+		"append2":                 func(t *rapid.T) { w.t = t; w.opAppend() },
+		"step":                    func(t *rapid.T) { w.t = t; w.opStep() },
+		"step2":                   func(t *rapid.T) { w.t = t; w.opStep() },
+		"step3":                   func(t *rapid.T) { w.t = t; w.opStep() },
+		"failSend":                func(t *rapid.T) { w.t = t; w.opFailSend() },
+		"failRecv":                func(t *rapid.T) { w.t = t; w.opFailRecv() },
+		"followerRestart":         func(t *rapid.T) { w.t = t; w.opFollowerRestart() },
+		"followerLosesLog":        func(t *rapid.T) { w.t = t; w.opFollowerLosesLog() },
+		"followerClosesPartition": func(t *rapid.T) { w.t = t; w.opFollowerClosesPartition() },
+		"followerAppendFails":     func(t *rapid.T) { w.t = t; w.opFollowerAppendFails() },
+		"followerOffline":         func(t *rapid.T) { w.t = t; w.opFollowerOffline() },
+		"followerOnline":          func(t *rapid.T) { w.t = t; w.opFollowerOnline() },
+		"leaderGC":                func(t *rapid.T) { w.t = t; w.opLeaderGC() },
+		"snapshotLeader":          func(t *rapid.T) { w.t = t; w.opSnapshotLeader() },
+		"leaderLosesTail":         func(t *rapid.T) { w.t = t; w.opLeaderLosesTail() },
+		"loseLastK":               func(t *rapid.T) { w.t = t; w.opLoseLastK() },
+		"":                        func(t *rapid.T) { w.t = t; w.check("after step") },
 	})
 	w.t = t
 	w.converge()
-	for c, n := range w.classes {
-		ev.Class("TestReplicationHistory", c, n)
+	for c, k := range w.classes {
+		ev.Class("TestReplicationHistory", c, k)
 	}
-	ev.Case("TestReplicationHistory", strings.Join(w.ops, ";"), w.faultHit > 0, nil,
-		map[string]any{"history": w.ops, "faults_with_backlog": w.faultHit})
+	shapes := []string{fmt.Sprintf("followers=%d", n)}
+	for s := range w.shapes {
+		shapes = append(shapes, "case-with:"+s)
+	}
+	sort.Strings(shapes)
+	ev.Case("TestReplicationHistory", strings.Join(w.ops, ";"), w.faultHit > 0, shapes,
+		map[string]any{"history": w.ops, "faults_with_backlog": w.faultHit, "followers": n})
 }
 
 func TestReplicationHistory(t *testing.T) {
 	rapid.Check(t, runHistory)
+}
+
+// once runs one deterministic scenario; rapid only provides the *rapid.T the world needs.
+func once(t *testing.T, followers int, scenario func(t *rapid.T, w *world)) {
+	ran, failed := false, false
+	rapid.Check(t, func(t *rapid.T) {
+		if ran && !failed {
+			return // (a failed scenario is run again so that rapid can reproduce the failure)
+		}
+		ran, failed = true, true
+		w := newWorld(t, followers)
+		defer w.close()
+		scenario(t, w)
+		failed = false
+	})
+}
+
+// stepAll steps the channel of f while there is a backlog (otherwise the production loop waits for data).
+func (w *world) stepAll(f *follower) {
+	for i := 0; i < 40 && w.backlog(f) > 0; i++ {
+		replica.VerifReplicaStep(w.leader.part, f.id)
+	}
 }
 
 // TestKnown_LeaderLostTailDiverges is the plain reproduction of the known finding
@@ -831,50 +1424,17 @@ func TestReplicationHistory(t *testing.T) {
 // writes before the channel has resynchronised stores new messages at positions at which the
 // follower still holds the old ones; the resynchronisation (index comparison only) cannot notice.
 func TestKnown_LeaderLostTailDiverges(t *testing.T) {
-	ran := false
-	rapid.Check(t, func(t *rapid.T) {
-		if ran {
-			return // one deterministic scenario; rapid only provides the *rapid.T the world needs
-		}
-		ran = true
-		root, err := os.MkdirTemp("", "c08k-")
-		if err != nil {
-			t.Fatalf("harness: %v", err)
-		}
-		w := &world{t: t, root: root, posOf: map[uint64]int64{}, idBytes: map[uint64][]byte{}, classes: map[string]int{}, folOnline: true, lastAck: -1, folHas: map[int64]bool{}}
-		w.leader.dir = filepath.Join(root, "leader")
-		w.fol.dir = filepath.Join(root, "follower")
-		defer func() {
-			w.breakStream()
-			w.leader.part.Stop()
-			_ = w.leader.part.Close()
-			_ = w.fol.part.Close()
-			_ = os.RemoveAll(root)
-		}()
-		w.openFollower()
-		w.openLeader()
-		put := func() {
-			m := w.newMessage(16)
-			if err := w.leader.part.WriteLog(m); err != nil {
-				t.Fatalf("append: %v", err)
-			}
-			w.posOf[w.nextID] = w.leader.fq.Queue().AppendedSeq()
-		}
-		// a step is only taken when there is a backlog (otherwise the production loop waits for data)
-		stepAll := func() {
-			for i := 0; i < 6 && w.backlog() > 0; i++ {
-				replica.VerifReplicaStep(w.leader.part, followerID)
-			}
-		}
-		put()
-		img := filepath.Join(root, "img")
+	once(t, 1, func(t *rapid.T, w *world) {
+		f := w.fols[0]
+		w.leaderPut(16)
+		img := filepath.Join(w.root, "img")
 		if err := crash.CopyTree(w.leader.dir, img); err != nil {
 			t.Fatalf("harness: %v", err)
 		}
-		put()
-		stepAll()
+		w.leaderPut(16)
+		w.stepAll(f)
 		// leader restarts from the image (position 1 lost) and takes two writes before replication runs
-		w.breakStream()
+		w.breakStream(f)
 		w.leader.part.Stop()
 		_ = w.leader.part.Close()
 		_ = os.RemoveAll(w.leader.dir)
@@ -882,12 +1442,12 @@ func TestKnown_LeaderLostTailDiverges(t *testing.T) {
 			t.Fatalf("harness: %v", err)
 		}
 		w.openLeader()
-		put()
-		put()
-		stepAll()
+		w.leaderPut(16)
+		w.leaderPut(16)
+		w.stepAll(f)
 		l, _ := w.leader.fq.Queue().Get(1)
-		f, errF := w.fol.fq.Queue().Get(1)
-		diverged := errF == nil && l != nil && !bytes.Equal(l, f)
+		fd, errF := f.fq.Queue().Get(1)
+		diverged := errF == nil && l != nil && !bytes.Equal(l, fd)
 		if diverged {
 			if ev.Known(sigLostTail) {
 				ev.KnownFinding("C08", sigLostTail+": leader log reverted to position 0, two writes before the next replication step: position 1 holds different bytes on leader and follower and replication continues at position 2")
@@ -895,5 +1455,112 @@ func TestKnown_LeaderLostTailDiverges(t *testing.T) {
 			}
 			t.Fatalf("%s: position 1 holds different bytes on leader and follower after resynchronisation", sigLostTail)
 		}
+	})
+}
+
+// TestRegression_RefusedOfferLeavesChannelReady reproduces the finding
+// C08/refused-offer-leaves-channel-ready: one append to the follower's log fails while the stream
+// stays open; the leader ignores the refusal (replicator_remote.go Replica, "FIXME: need check resp
+// err" / "TODO: need reset ack sequence?"), goes on with the next positions, the follower refuses
+// all of them (it still waits for the failed one) and the channel stays "ready": nothing
+// resynchronises until the stream breaks for another reason.
+func TestRegression_RefusedOfferLeavesChannelReady(t *testing.T) {
+	once(t, 1, func(t *rapid.T, w *world) {
+		f := w.fols[0]
+		w.leaderPut(16)
+		w.stepAll(f) // follower holds position 0
+		w.mu.Lock()
+		f.putFail = 1
+		w.mu.Unlock()
+		w.leaderPut(16)
+		w.leaderPut(16)
+		w.leaderPut(16)
+		for i := 0; i < 10 && w.needsStep(f); i++ {
+			replica.VerifReplicaStep(w.leader.part, f.id)
+		}
+		w.check("regression")
+		r := w.replicator(f)
+		stuck := f.app() == 0 && !w.needsStep(f)
+		if stuck {
+			msg := fmt.Sprintf("%s: append of position 1 failed once on the follower (stream open); afterwards follower appended=%d, leader appended=%d, leader's next index for it=%d, ack=%d, channel ready=%v, nothing left to send",
+				sigRefused, f.app(), w.leader.fq.Queue().AppendedSeq(), r.ReplicaIndex(), r.AckIndex(), w.ready(f))
+			if ev.Known(sigRefused) {
+				ev.KnownFinding("C08", msg)
+				return
+			}
+			t.Fatalf("%s", msg)
+		}
+		if f.app() != 3 {
+			t.Fatalf("follower appended up to %d, want 3", f.app())
+		}
+	})
+}
+
+// TestRegression_ClosedPartitionRefusalAcksPosition0 reproduces the finding
+// C08/closed-partition-refusal-acks-position-0: Partition.ReplicaLog of a closed partition answers
+// (0, ErrPartitionClosed); ReplicaHandler passes the 0 on as AckIndex next to resp.Err and the
+// leader, which never looks at resp.Err, takes AckIndex == ReplicaIndex == 0 for an acknowledgement.
+func TestRegression_ClosedPartitionRefusalAcksPosition0(t *testing.T) {
+	once(t, 1, func(t *rapid.T, w *world) {
+		f := w.fols[0]
+		w.stepFor(f) // handshake + stream; the loop waits for data
+		if w.waitData != f {
+			t.Fatalf("harness: the loop does not wait for data")
+		}
+		_ = f.part.Close() // the follower shuts down: partition closed, stream still open
+		f.partClosed = true
+		w.leaderPut(16) // position 0 is offered over the open stream
+		w.wakeLoop()
+		ack := w.replicator(f).AckIndex()
+		if ack >= 0 {
+			msg := fmt.Sprintf("%s: position 0 offered to a follower whose partition is closed: follower appended=%d, leader's acknowledged position for it=%d", sigZero, f.app(), ack)
+			if ev.Known(sigZero) {
+				ev.KnownFinding("C08", msg)
+				return
+			}
+			t.Fatalf("%s", msg)
+		}
+	})
+}
+
+// TestRegression_AppendIndexResetDropsBacklogOfOtherFollower reproduces the finding
+// C08/append-index-reset-drops-backlog-of-other-followers: the leader restarts with a log that
+// lost its tail (holds 0..2); follower 2 holds 0..3, follower 3 only position 0. The handshake
+// with follower 2 moves the append index to 4 with FanOutQueue.SetAppendedSeq(3): the read
+// barrier of the log and the consumer group of follower 3 jump to 3 as well, so positions 1 and 2,
+// which the leader holds and follower 3 lacks, count as acknowledged by it and are never sent.
+func TestRegression_AppendIndexResetDropsBacklogOfOtherFollower(t *testing.T) {
+	once(t, 2, func(t *rapid.T, w *world) {
+		a, b := w.fols[0], w.fols[1]
+		w.leaderPut(16)
+		w.leaderPut(16)
+		w.leaderPut(16)
+		w.opSnapshotLeader()
+		w.leaderPut(16)
+		w.stepAll(a)                                  // follower 2: 0..3
+		replica.VerifReplicaStep(w.leader.part, b.id) // follower 3: 0
+		w.check("setup")
+		if a.app() != 3 || b.app() != 0 {
+			t.Fatalf("harness: setup: follower 2 appended %d, follower 3 appended %d", a.app(), b.app())
+		}
+		w.leaderLosesTail(false) // leader: 0..2
+		w.stepFor(a)             // handshake; then the loop waits for data
+		w.leaderPut(16)          // position 4
+		w.wakeLoop()
+		ackB := w.replicator(b).AckIndex()
+		for i := 0; i < 10 && w.needsStep(b); i++ {
+			replica.VerifReplicaStep(w.leader.part, b.id)
+		}
+		_, err1 := b.fq.Queue().Get(1)
+		_, err4 := b.fq.Queue().Get(4)
+		if ackB > 0 && err1 != nil {
+			msg := fmt.Sprintf("%s: after the handshake with follower 2 the leader's acknowledged position for follower 3 is %d (follower 3 appended 0 only, the leader holds 0..2); after replication follower 3 holds position 4 (%v) but not position 1 (%v)", sigDrop, ackB, err4 == nil, err1)
+			if ev.Known(sigDrop) {
+				ev.KnownFinding("C08", msg)
+				return
+			}
+			t.Fatalf("%s", msg)
+		}
+		w.check("regression")
 	})
 }
